@@ -37,6 +37,7 @@ fn catch<T>(f: impl FnOnce() -> T + panic::UnwindSafe) -> Result<T, String> {
 
 mod ops;
 mod conformance;
+mod equiv;
 
 fn main() {
     panic::set_hook(Box::new(|_| {}));
